@@ -281,36 +281,4 @@ mod verif_kani_message {
         let o = 24 + p0;
         assert!(out[o] == (t[1] >> 8) as u8 && out[o + 1] == t[1] as u8 && out[o + 2] == 0 && out[o + 3] == 0);
     }
-    // C16 (bounded): the verdict of check_attribute_types on requests holding two zero-length attributes of symbolic non-sealing
-    // types, one supported type and one required type (all symbolic): 420 <=> some exposed comprehension-required type is not
-    // supported; otherwise 400 <=> the required type is absent; otherwise nothing.  (Which response: ERROR-CODE is not decoded
-    // here - a 420 answer is recognised by its UNKNOWN-ATTRIBUTES attribute, which a 400 answer does not carry.)
-    #[kani::proof]
-    #[kani::unwind(8)]
-    fn k16_verdict_small() {
-        let t: [u16; 2] = kani::any();
-        let mut i = 0;
-        while i < 2 { kani::assume(t[i] != 0x0008 && t[i] != 0x001c && t[i] != 0x8028); i += 1; }
-        let mut b = [0u8; 28];
-        b[1] = 1; b[3] = 8;
-        b[4] = 0x21; b[5] = 0x12; b[6] = 0xa4; b[7] = 0x42;
-        let mut i = 0;
-        while i < 2 { b[20 + 4 * i] = (t[i] >> 8) as u8; b[21 + 4 * i] = t[i] as u8; i += 1; }
-        let sup: u16 = kani::any();
-        let req: u16 = kani::any();
-        if let Ok(msg) = Message::from_bytes(&b) {
-            let unknown0 = t[0] < 0x8000 && t[0] != sup;
-            let unknown1 = t[1] < 0x8000 && t[1] != sup;
-            let missing = t[0] != req && t[1] != req;
-            let r = Message::check_attribute_types(&msg, &[AttributeType::new(sup)], &[AttributeType::new(req)]);
-            match r {
-                None => assert!(!unknown0 && !unknown1 && !missing),
-                Some(resp) => {
-                    assert!(unknown0 || unknown1 || missing);
-                    assert!(resp.has_attribute(AttributeType::new(0x0009)));
-                    assert!(resp.has_attribute(AttributeType::new(0x000A)) == (unknown0 || unknown1));
-                }
-            }
-        }
-    }
 }
